@@ -226,6 +226,17 @@ class ReadOnlyCheck:
                 heads, outs, progs, mags, optsets):
             yield {"head": head, "out": out, "prog": prog, "magnet": mag,
                    "opts": optset}
+        # bystanders in the output directory and the working directory, and
+        # creates that fail before anything is written
+        for head, out, optset in itertools.product(heads, outs + [
+                "file-existing-empty"], optsets):
+            for by in ("dot-empty", "dot-full", "name-empty"):
+                yield {"head": head, "out": out, "prog": "0", "magnet": False,
+                       "opts": optset, "by": by}
+            yield {"head": head, "out": out, "prog": "0", "magnet": False,
+                   "opts": optset, "by": "dot-empty", "fail": "missing"}
+            yield {"head": head, "out": out, "prog": "0", "magnet": False,
+                   "opts": optset, "fail": "missing"}
 
     def run_create_single(self, g, res):
         """A single-file payload whose own name ends in .torrent, output name
@@ -300,8 +311,10 @@ class ReadOnlyCheck:
                 world.write_file(cfg, b"[config]\ncomment = from config\n"
                                       b"announce =\n    http://c/a\n")
                 argv = ["create", "--config", "--config-path", cfg]
-            argv += [root, "--meta-version", version, "--prog", cc["prog"],
-                     "--piece-length", str(P0)]
+            content_arg = root if not cc.get("fail") else \
+                os.path.join(sb, "no", "such", NAME)
+            argv += [content_arg, "--meta-version", version, "--prog",
+                     cc["prog"], "--piece-length", str(P0)]
             if cc["out"].startswith("file"):
                 target = os.path.join(outdir, "result.torrent")
                 argv += ["-o", target]
@@ -312,6 +325,17 @@ class ReadOnlyCheck:
                 target = os.path.join(cwd, NAME + ".torrent")
             if cc["out"].endswith("existing"):
                 world.write_file(target, b"old metafile bytes")
+            if cc["out"].endswith("existing-empty"):
+                world.write_file(target, b"")
+            for d_ in (outdir, cwd):
+                os.makedirs(d_, exist_ok=True)
+                if cc.get("by") == "dot-empty":
+                    world.write_file(os.path.join(d_, ".torrent"), b"")
+                elif cc.get("by") == "dot-full":
+                    world.write_file(os.path.join(d_, ".torrent"), b"mine")
+                elif cc.get("by") == "name-empty":
+                    world.write_file(os.path.join(d_, NAME), b"")
+                    world.write_file(os.path.join(d_, "torrent"), b"")
             if cc["magnet"]:
                 argv.append("--magnet")
             if cc["opts"] == "all":
@@ -336,7 +360,15 @@ class ReadOnlyCheck:
             trel = os.path.relpath(target, sb)
             case = dict(cc, kind="create", version=g["version"], seed=seed)
             prob = None
-            if err:
+            if cc.get("fail"):
+                # nothing may change when the create fails up front
+                if changed:
+                    gone = [c for c in changed if c not in after]
+                    prob = ("failed-create-deletes:" + os.path.basename(
+                        gone[0]) if gone else "failed-create-changes-path")
+                elif not err:
+                    res.outcomes["failing-create-did-not-raise"] += 1
+            elif err:
                 prob = "create-raised"
             elif trel not in after or after[trel][0] != "f":
                 prob = "output-metafile-missing"
@@ -453,7 +485,8 @@ class ReadOnlyCheck:
                 continue
             if case["kind"] == "create" and any(
                     c.get(k) != case.get(k)
-                    for k in ("head", "out", "prog", "magnet", "opts")):
+                    for k in ("head", "out", "prog", "magnet", "opts", "by",
+                              "fail")):
                 continue
             if case["kind"] == "rename" and c.get("variant") != \
                     case.get("variant"):
